@@ -18,6 +18,56 @@ CHECKS = {
          "documented density. Right level: the property is a forall over five reals, which the solver covers entirely "
          "inside the npts bound; rounding is outside.",
     design="3/C02", technique="symbolic execution of real Python on z3 proxy values (own explorer) + z3 QF_UFNRA obligations"),
+ "C01": dict(
+    text="Symbolic execution of the real Python driver (make_kernel_args/make_details, DllModel.make_kernel, DllKernel._call_kernel "
+         "chunk loop, Kernel.Fq/Iq) on z3 proxies composed with symbolic execution of the LLVM IR of every compiled model's real "
+         "generated kernel source (kernel_iq.c template + model), regenerated on each run. Leaf functions (Iq/Fq/volumes/R_eff) are "
+         "uninterpreted, every value, distribution point, weight, q, the cutoff and the initial result buffer are symbolic. z3 shows "
+         "per path that the accumulators, I(q) and the Fq outputs equal the documented weighted mean over the full mesh (gates, "
+         "one-point and empty distributions included); split points of the mesh across kernel calls are symbolic integers. Right "
+         "level: the property is about routing/indexing/normalisation for all data values, which the solver covers inside the "
+         "mesh-size bounds; leaf numerics and rounding are outside.",
+    design="3/C01", engine="symx+llsym",
+    technique="symbolic execution of real Python (z3 proxies) + symbolic execution of clang LLVM IR of the generated C kernels; z3 QF_UFNRA obligations; replay on the real DLL"),
+ "C20": dict(
+    text="Bounded symbolic execution of the real convert.convert_model for every entry of both conversion tables, five model_version "
+         "tuples and both use_underscore values. Values/attributes/strings are z3 proxies, the key set is chosen by symbolic integers "
+         "over a bounded family of presence patterns. Per path z3 shows: no exception, returned name = current model id, every returned "
+         "key exists in the current ModelInfo, every old value arrives at the key the table maps it to (x1e6 for SLDs; inverse formulas for "
+         "hand-converted models), defaults. Right level: forall over values is covered entirely and over key subsets inside the stated family.",
+    design="3/C20",
+    technique="symbolic execution of real Python on z3 proxy values in plain dicts (own explorer; presence patterns by solver-decided forks); z3 obligations; replay on real code; CrossHair as second engine in thorough",
+    note="Trusted: z3; the symx explorer; the Spec class in props/c20.py (table read as data, ModelInfo, inverse formulas transcribed from convert.py/revert_pars); reals for doubles; sqrt axioms (teubner_strey only). The table itself is the specification of name pairing. Outside: presence patterns/insertion orders beyond the bounded family, attributes without their value, .std of SLDs, rpa La..Ld, spherical_sld n_shells, limits/widths of hand-converted quantities, 4.x sets with current model names. Known findings are listed in known_findings.json."),
+ "C15": dict(
+    text="For every well-formed ASCII token sequence without string literals or comments (segment lengths unbounded), each match of the leftmost "
+         "scan by the live FLOAT_RE / keyword / TGMATH_INT_RE patterns is exactly an unsuffixed decimal floating constant / the double of a double, "
+         "doubleN or cdouble(N) token / FN([sign]INT before , or ). Every such floating constant and keyword token is matched, and the replacement "
+         "templates re-emit all other text; exact for the first K<=2 (quick) or 3 (thorough) matches, and for every later match not run across by a "
+         "candidate match. Separately, concretely: token streams of all 61 C models x {F32,F64,F128} equal the reference conversion, and parse_dtype "
+         "returns the documented dtype for 5040 request x platform configurations.",
+    design="2.3, 3/C15", engine="rx2smt",
+    technique="re._parser parse trees of the patterns captured from a traced convert_type call translated node by node to z3 regex terms (vlib/rx2smt); source = one symbolic z3 string with boundary markers so re.sub's leftmost non-overlapping scan and a C99 reference lexer (vlib/clex) are regular constraints; each obligation one unsat regex-membership query; sat models replayed through the real convert_type/re",
+    note="The translator is validated against Python re on every distinct line of all model sources and on test_tag_float (0 mismatches). Comments, literal escapes, ill-formed pp-numbers, completeness of the integer promotion and numerical agreement of the built kernels are outside the claim. Known findings: hex floats untagged, text inside string literals rewritten. Trusted: z3 sequence/regex theory, vlib/rx2smt, vlib/clex (C99 6.4 transcription)."),
+ "C17": dict(
+    text="Bounded symbolic execution of the real load path (core.load_model -> custom.load_custom_kernel_module/need_reload -> make_source/load_template -> "
+         "make_dll/dll_name -> _load_dll) on a virtual filesystem. The edit/load/restart history (<=4 ops quick; <=5 with both templates, <=6 with one, thorough) "
+         "is a vector of symbolic integers and every modification time is a symbolic real under a non-decreasing-clock model that allows ties. z3 decides every "
+         "mtime comparison of the real code. On every feasible path each load serves module, source and library of the current texts and precision, no two "
+         "(source, precision) share a library path, and reverting restores the earlier library. Right level: the bugs live in mtime orderings and op orderings, "
+         "which the solver covers entirely inside the bound; text content is a 3-version pool so the real CRC runs.",
+    design="3/C17", engine="symx+vfs",
+    technique="symx explorer over symbolic histories and mtimes on vlib.vfs (virtual filesystem, scripted compiler, virtual dlopen), z3 QF_LIRA fork feasibility; thorough: QF_BV lemmas and collision search on CRC-32; counterexamples replayed on the real filesystem with os.utime, real worker processes and the real compiler",
+    note="Trusted: z3, the symx explorer, vlib.vfs (validated every run: the generated source equals the unstubbed run on real files), the new-process model (module-level containers restored). Bounded by history length, one plugin with one included C file, two precisions; .pyc caching, backwards or future mtimes, CRC collisions (known finding C17/crc32-tag-collision, thorough tier) and concurrency are outside."),
+ "C18": dict(
+    text="The real load_dll/make_dll/compile_model/_load_dll run in N scheduler-controlled threads on a shared virtual cache directory (atomic rename, two-half "
+         "scripted compiler, dlopen of complete files only). The process resumed at every operation visible to others and the yield at which a process is killed "
+         "are symbolic integers. z3 decides feasible alternatives (ranges, preemption bound) and the explorer enumerates all interleavings for N=2 (N=3 in thorough), "
+         "preemption-bounded for larger N, with every yield as a kill point. On every interleaving all live processes hold a complete correct library without "
+         "exception, no malformed file stays under the final name, and a later fresh load succeeds. Right level: the property quantifies over schedules and kill "
+         "points, which are exactly the solver-enumerated variables; the model is re-validated against a real gated process on every run.",
+    design="3/C18", engine="symx+sched",
+    technique="symx explorer as solver-driven schedule and crash enumerator (vlib.sched: hand-over-hand threads, symbolic choice and kill integers, preemption bound as a z3 constraint, checked partial-order reduction) over vlib.vfs; replay with real processes gated by a profile hook, a FIFO-gated compiler wrapper and kill -9",
+    note="Trusted: z3, the symx explorer, vlib.sched and vlib.vfs (the operation sequences of real first and cached loads equal the model's on every run), the kill model (no filesystem effects after the kill, compiler dies with the process), linker = unlink+create. Bounded by N<=3 quick / <=4 thorough, one kill per run, two-half compiler; Windows and network filesystem semantics and write buffering are outside. A truncated exploration is exit 2, never success."),
 }
 
 NOT_YET = "check not built yet in this round (planned in DESIGN.md section 3); not claimed"
@@ -51,8 +101,10 @@ def main():
                   "baseline_off_cmd": "cd /repo && /venv/bin/python -m pytest -ra -q -p no:cacheprovider --timeout=900 --continue-on-collection-errors",
                   "source_commits": [], "add_only": True},
         "engines": [
-            {"name": "symx", "path": "vlib/symx.py", "serves_properties": [c["property_id"] for c in checks if c["engine"] == "symx"],
+            {"name": "symx", "path": "vlib/symx.py", "serves_properties": [c["property_id"] for c in checks if "symx" in c["engine"]],
              "kind_free_text": "symbolic execution of the real Python on z3 proxy values carried by numpy object arrays; DFS explorer; obligations discharged by z3"},
+            {"name": "llsym", "path": "vlib/llsym/", "serves_properties": [c["property_id"] for c in checks if "llsym" in c["engine"]],
+             "kind_free_text": "real generate.make_source -> convert_type -> clang -O0 LLVM IR -> own IR interpreter over z3 terms (symbolic) or floats (translator validation against the real DLL)"},
         ],
         "checks": checks,
         "not_applicable": na,
